@@ -36,7 +36,8 @@ REQUIRED = ["detected_utf-8", "detected_cp1252", "detected_cp932", "detected_cp9
             "explicit_encoding", "native", "memory", "backup_and_output", "valid_under_several", "edit_changes_chart_in_place",
             "same_path_opened_twice_different_lists", "multibyte_char_straddles_1024", "output_and_backup_equal_input", "no_song_level_property",
             "file_ends_with_non_ascii_character", "input_path_with_several_dots", "several_dots_and_content_of_the_other_format",
-            "backup_path_is_a_proper_prefix_of_the_input_path", "backup_name_differs_from_input_or_output_only_in_letter_case"]
+            "backup_path_is_a_proper_prefix_of_the_input_path", "backup_name_differs_from_input_or_output_only_in_letter_case",
+            "utf8_bom_and_utf8_not_first_in_the_tried_list", "only_extra_components_edited_with_backup"]
 
 DEFAULT = ["utf-8", "cp1252", "cp932", "cp949"]
 SAMPLES = {
@@ -90,6 +91,8 @@ def gen_content(rng, ext):
         else:
             lines.append(f"#NOTES:{nl}     dance-single:{nl}     {_esc(pick())}:{nl}     Hard:{nl}     9:{nl}     0,0:{nl}0000{nl}0001{nl}1000{nl}0000{nl};")
     text = nl.join(lines) + nl
+    if enc_w == "utf-8" and rng.random() < 0.25:
+        text = "\ufeff" + text   # a UTF-8 file that starts with EF BB BF: bytes like any other for the detection
     if rng.random() < 0.2:
         # the very last byte(s) of the file belong to a non-ASCII character: the last parameter has no ';'
         text = text + "#LAST:" + rng.choice(SAMPLES[enc_w])
@@ -127,6 +130,9 @@ def gen_script(rng, enc, kind, n_charts):
             ops.append(["del?", rng.choice(["ARTIST", "CREDIT", "GENRE", "FOO"])])
         elif r < 0.7:
             ops.append(["set", rng.choice(["SUBTITLE", "KEYONLY"]), None])
+        elif r < 0.74 and n_charts and kind == "sm":
+            # only the extra NOTES components of a chart change (none of its six fields is assigned)
+            ops.append(["cs_extra", rng.randrange(n_charts), [v().strip() or "x", "extra"]])
         elif r < 0.8 and n_charts:
             i = rng.randrange(n_charts)
             if kind == "sm":
@@ -274,6 +280,8 @@ def check(ctx, case):
             ctx.feat("multibyte_char_straddles_1024")
     if data and data[-1] >= 0x80:
         ctx.feat("file_ends_with_non_ascii_character")
+    if data[:3] == b"\xef\xbb\xbf" and tried[0] != "utf-8" and "utf-8" in tried:
+        ctx.feat("utf8_bom_and_utf8_not_first_in_the_tried_list")
     if case["output"] and case["backup"] == "=input":
         ctx.feat("output_and_backup_equal_input")
     decodes = [e for e in DEFAULT if ref_detect(data, [e])]
@@ -389,6 +397,8 @@ def check(ctx, case):
                         E.apply_real(s, op, [], ext)
                     if op[0] in ("cs_attr", "cc_set"):
                         ctx.feat("edit_changes_chart_in_place")
+                    if op[0] == "cs_extra" and bak_path:
+                        ctx.feat("only_extra_components_edited_with_backup")
                 snaps["S1"] = copy.deepcopy(s)
         except Exception as e:
             err = e
